@@ -25,8 +25,8 @@ LEVEL_NOTE = "Trusted: winding-number membership; exact equality for the value 0
 
 def budget(tier):
     if tier == "quick":
-        return dict(max_examples=140, workers=6, time_s=170, min_cases=50)
-    return dict(max_examples=3000, workers=16, time_s=1200, min_cases=100)
+        return dict(max_examples=500, workers=8, time_s=170, min_cases=120)
+    return dict(max_examples=20000, workers=16, time_s=1200, min_cases=240)
 
 
 @st.composite
@@ -47,7 +47,7 @@ def _case(draw, tier):
         tpsi = draw(st.sampled_from([[round(r * np.cos(th), 6), round(r * np.sin(th), 6)], r, 1.0, [0.3, 0.4]]))
         if isinstance(tpsi, list) and abs(complex(*tpsi)) > 1:
             tpsi = [0.6, -0.8]
-    fld = draw(gen.field(dev, fu, kinds=("zero", "constant", "ramp", "float"), bmax=0.2 if scr else 0.5))
+    fld = draw(gen.field(dev, fu, kinds=("zero", "constant", "ramp", "ramp", "float"), bmax=0.2 if scr else 0.5))
     cur = draw(gen.currents(dev, cu, kinds=("dict", "callable"))) if tp != "none" or draw(st.booleans()) else None
     return dict(device=dev, field=fld, currents=cur,
                 options=dict(dt_c=draw(gen.rf(0.05, 0.4)), dtmax_c=0.45, adaptive=draw(st.booleans()), adaptive_window=draw(st.integers(1, 6)),
